@@ -50,6 +50,10 @@ def tv(test, var: str, facts: dict):
             and isinstance(test.comparators[0], ast.Constant) and ("const:" + test.left.id) in facts:
         eq = facts["const:" + test.left.id] == test.comparators[0].value
         return eq if isinstance(test.ops[0], ast.Eq) else not eq
+    if isinstance(test, ast.Compare) and len(test.ops) == 1 and isinstance(test.ops[0], (ast.Is, ast.IsNot)) and isinstance(test.comparators[0], ast.Constant) \
+            and test.comparators[0].value is None and ("notnone:" + unparse(test.left)) in facts:
+        nn = facts["notnone:" + unparse(test.left)]
+        return nn if isinstance(test.ops[0], ast.IsNot) else not nn
     if isinstance(test, (ast.Attribute, ast.Name)):
         return facts.get("truthy:" + unparse(test))
     return None
